@@ -170,8 +170,12 @@ def direct_oracle(case, stats=None):
                 Hm = sparse(mk(Hj)) if case["spH"] else mk(Hj)
             if mnl:
                 Dfm = mk(Df)
-                if case["spDf"]:
-                    # fixed sparsity pattern (explicit zeros kept) so that pattern re-use across factor calls is legal
+                if case["spDf"] and case.get("Hjunk", 0.0) == 0.0:
+                    # sparse Df as a user function would build it from a dense gradient: zeros dropped, so the sparsity
+                    # pattern changes from one factorization to the next (nothing in the manual asks for a fixed pattern)
+                    Dfm = sparse(Dfm)
+                elif case["spDf"]:
+                    # fixed sparsity pattern (explicit zeros kept)
                     I = [i for j in range(n) for i in range(mnl)]
                     J = [j for j in range(n) for i in range(mnl)]
                     Dfm = spmatrix(list(Dfm), I, J, (mnl, n))
